@@ -279,15 +279,20 @@ def change_columns(rng, lines):
 
 
 def add_hydrogens(rng, cx):
-    out = cx.copy()
-    for r in out.residues:
+    """the record lines of `cx` (serial numbers as in cx.lines()) with hydrogen records inserted anywhere inside the residues"""
+    out, serial, hs = [], 1, 90000
+    for r in cx.residues:
         have = {a[0] for a in r['atoms']}
         base_xyz = r['atoms'][0][2]
-        for j, (nm, el) in enumerate(H_NAMES):
+        lines = []
+        for (name, el, xyz) in r['atoms']:
+            lines.append(cg.atom_line(serial, name, r['resName'], r['chain'], r['resSeq'], xyz[0], xyz[1], xyz[2], element=el)); serial += 1
+        for (nm, el) in H_NAMES:
             if nm not in have and rng.random() < 0.5:
-                h = (nm, el, (round(base_xyz[0] + rng.uniform(-1.1, 1.1), 3), round(base_xyz[1] + rng.uniform(-1.1, 1.1), 3),
-                              round(base_xyz[2] + rng.uniform(-1.1, 1.1), 3)))
-                r['atoms'].insert(rng.randint(0, len(r['atoms'])), h)
+                xyz = tuple(round(base_xyz[i] + rng.uniform(-1.1, 1.1), 3) for i in range(3))
+                lines.insert(rng.randint(0, len(lines)), cg.atom_line(hs, nm, r['resName'], r['chain'], r['resSeq'], xyz[0], xyz[1], xyz[2], element=el))
+                hs += 1
+        out += lines
     return out
 
 
@@ -338,7 +343,7 @@ def one_case(rng, kind, k):
                   {'delta': delta})
     if kind == 'hydrogens':
         ref, dec = gen_base(rng, hydrogens=rng.random() < 0.3)
-        return mk(kind, None, dec.lines(), ref.lines(), add_hydrogens(rng, dec).lines(), add_hydrogens(rng, ref).lines(), enforce)
+        return mk(kind, None, dec.lines(), ref.lines(), add_hydrogens(rng, dec), add_hydrogens(rng, ref), enforce)
     if kind == 'permute':
         ref, dec = gen_base(rng)
         level = base.PERM_LEVELS[(k // 2) % len(base.PERM_LEVELS)]
